@@ -92,7 +92,7 @@ def modeOf (w : World α) (c : α) (id : Nat) : α × α :=
 
 /-- the confidence setter: validates, stores, drops the cached mode result -/
 def setConf' (s : St α) (c : α) : St α × Out α :=
-  if Num.lt (Num.ofNat 1) c || Num.lt c (Num.ofNat 0) then (s, .rejected)
+  if Gen.mcConfBad c then (s, .rejected)
   else ({ s with conf := c, cMode := none }, .ok)
 
 /-- `MonteCarloEvaluator.evaluate` once a simulation `id` is stored -/
@@ -136,7 +136,7 @@ def step (w : World α) (s : St α) : Op α → St α × Out α
   | .useMean => ({ ensure s with strategy := .meanStd }, .ok)
   | .useCustom v e =>
     let s := { ensure s with strategy := .custom }
-    if Num.lt e (Num.ofNat 0) then (s, .rejected) else ({ s with cCustom := some (v, e) }, .ok)
+    if Gen.mcCustomBad e then (s, .rejected) else ({ s with cCustom := some (v, e) }, .ok)
   | .read => evaluate w s
   | .samples =>
     let s := ensure s
